@@ -22,4 +22,12 @@ var pureFunSpecs = []pfSpec{
 	{pkg: "x/auctionsV2/keeper", recv: "Keeper", fn: "GetCollalteralTokenInitialPrice", coq: "gen_auctionsV2_InitialPrice"},
 	{pkg: "x/auctionsV2/keeper", recv: "Keeper", fn: "GetPriceFromLinearDecreaseFunction", coq: "gen_auctionsV2_LinearPrice"},
 	{pkg: "x/auctionsV2/keeper", recv: "Keeper", fn: "GetCollateralTokenEndPrice", coq: "gen_auctionsV2_EndPrice"},
+	// x/vault/keeper/vault.go, x/market/keeper/oracle.go (C03).  Error codes are those of Model/Vault.v
+	{pkg: "x/vault/keeper", recv: "Keeper", fn: "CalculateCollateralizationRatio", coq: "gen_vault_CalculateCollateralizationRatio",
+		reads: []string{"GetPairsVault", "GetPair", "GetAsset", "GetESMStatus", "GetSnapshotOfPrices", "CalcAssetPrice"},
+		errs: map[string]int{"types.ErrorExtendedPairVaultDoesNotExists": 3, "types.ErrorPairDoesNotExist": 3, "types.ErrorAssetDoesNotExist": 3,
+			"types.ErrorPriceDoesNotExist": 10, "types.ErrorInvalidAmountIn": 6, "types.ErrorInvalidAmountOut": 6}},
+	{pkg: "x/market/keeper", recv: "Keeper", fn: "CalcAssetPrice", coq: "gen_market_CalcAssetPrice",
+		reads: []string{"GetAsset", "GetTwa"},
+		errs: map[string]int{"assetTypes.ErrorAssetDoesNotExist": 3, "types.ErrorPriceNotActive": 10}},
 }
